@@ -3,7 +3,7 @@ from tools import vlib, cli
 
 RULE = ("the real binary under rich | quiet | json | json2 | --luacheck | --luacheck --ranges on generated inputs with multi-line ranges, "
         "zero-width ranges (tokenizer errors), non-ASCII text before and inside diagnostics, CRLF line endings, parse errors and clean "
-        "files, under the default configuration and under one that sets firing lints to allow; every style's output is parsed into rows (file, lint, severity, start line:col, message) and compared; every JSON line "
+        "files, under the default configuration and under one that sets firing lints to allow; every style's output is parsed into rows (file, lint, severity, start line:col, message) and compared; groups of 2-6 of the files in one invocation, each style's rows compared with the union of its single-file rows; every JSON line "
         "must be one self-contained object; byte offsets and line/column of the json styles are recomputed from the source by the Lean "
         "location model and specification; non-trivial = a case with >= 2 diagnostics, a multi-line or zero-width range, CRLF, or non-ASCII text "
         "before a diagnostic")
@@ -151,6 +151,44 @@ def one_case(ctx, lines, d, fname, src, cfg=()):
     if styles.get("luacheck-ranges", 0) is None:
         st_sx.append("(luacheck crashed)")
     lines.append(f"C20.styles\t({cli.sq(src)} ({' '.join(diags_sx)}) ({' '.join(st_sx)}) ({' '.join(locs)}))\tok")
+    return styles
+
+
+def joint_case(ctx, d, fnames, single, threads):
+    """several files in ONE invocation: under every style the records are the union of what the same style says about each
+    file on its own — same file names, positions, severities, messages (a record that names another file of the run, or a
+    position of another file's text, is not the same record)"""
+    runs = {
+        "json2": ["--display-style", "json2"],
+        "json": ["--display-style", "json"],
+        "quiet": ["--display-style", "quiet", "--color", "never"],
+        "rich": ["--display-style", "rich", "--color", "never"],
+    }
+    for name, flags in runs.items():
+        if any(single[f].get(name) is None for f in fnames):
+            continue
+        rc, out, err = cli.run_selene(flags + ["--num-threads", str(threads), "--no-summary"] + fnames, d)
+        ctx.evaluations += 1
+        if crashed(err):
+            got = None
+        elif name in ("json", "json2"):
+            dj, _, bad = cli.parse_json_lines(out)
+            got = [(x["primary_label"]["filename"], x["code"], x["severity"].lower(), x["primary_label"]["span"]["start_line"] + 1,
+                    x["primary_label"]["span"]["start_column"] + 1, x["message"]) for x in dj]
+        elif name == "quiet":
+            q, _ = cli.parse_quiet(out)
+            got = [(x["file"], x["code"], x["sev"], int(x["line"]), int(x["col"]), x["msg"]) for x in q]
+        else:
+            got = parse_rich(out)
+        want = sorted(r for f in fnames for r in single[f][name])
+        if got is None or sorted(got) != want:
+            only_joint = [r for r in (got or []) if r not in want][:3]
+            only_single = [r for r in want if r not in (got or [])][:3]
+            ctx.violation(f"implementation violates the specification: [C20] style {name}: {len(fnames)} files checked in one invocation (--num-threads {threads}) are not described by the records the same style prints for each of them alone",
+                          f"directory: {d}\nfiles: {' '.join(fnames)}\narguments: {' '.join(flags)} --num-threads {threads} --no-summary\n"
+                          f"records only in the joint run: {only_joint}\nrecords only in the single-file runs: {only_single}\n" + ("the joint run crashed\n" if got is None else ""))
+            return
+    ctx.nontrivial.add(f"joint-run-{threads}")
 
 
 def gen_program(rng):
@@ -190,14 +228,20 @@ def body(ctx):
     # them out, completely
     cli.write_config(d, lints={"unused_variable": "allow", "empty_if": "allow", "divide_by_zero": "allow", "unbalanced_assignments": "deny"}, name="allow.toml")
     n = 25 if ctx.tier == "quick" else 400
+    single = {}
     for i in range(n):
         src = gen_program(rng)
         fname = f"g_{i}.lua"
         with open(os.path.join(d, fname), "w", newline="") as fh:
             fh.write(src)
-        one_case(ctx, lines, d, fname, src)
+        single[fname] = one_case(ctx, lines, d, fname, src)
         if i % 2 == 0:
             one_case(ctx, lines, d, fname, src, cfg=["--config", "allow.toml"])
+    # the same files, several per invocation
+    names = sorted(single)
+    for k in range(6 if ctx.tier == "quick" else 60):
+        group = rng.sample(names, min(len(names), rng.randint(2, 6)))
+        joint_case(ctx, d, group, single, 1 if k % 3 != 2 else 2)
     for name in ("warn", "mixed", "multirange", "nonascii_line2"):
         if name in fixed:
             one_case(ctx, lines, d, f"k_{name}.lua", fixed[name], cfg=["--config", "allow.toml"])
